@@ -88,6 +88,8 @@ type End struct {
 	WriteFailsWithRead bool  // once a Read has failed by plan, Writes fail too
 	ReadFailed         bool
 	// hooks run inline in the calling thread
+	readBrk     chan struct{}
+	readDown    bool
 	OnWrite     func(k int, rpc *Rpc) // before the k-th envelope is enqueued
 	OnWriteCall func(k int, rpc *Rpc) // at the start of every Write call, before any injected failure
 	OnRead      func(k int, rpc *Rpc) // after the k-th envelope was dequeued
@@ -100,8 +102,8 @@ func NewPipe(tap *Tap, o PipeOpts) *Pipe {
 	ab := make(chan *Rpc, o.Cap)
 	ba := make(chan *Rpc, o.Cap)
 	p := &Pipe{Opts: o, Tap: tap}
-	p.A = &End{p: p, dir: "a2b", in: ba, out: ab, brk: make(chan struct{}), ReadFailAfter: -1, WriteFailAt: -1, DropWriteAt: -1, DeliverThenFailAt: -1}
-	p.B = &End{p: p, dir: "b2a", in: ab, out: ba, brk: make(chan struct{}), ReadFailAfter: -1, WriteFailAt: -1, DropWriteAt: -1, DeliverThenFailAt: -1}
+	p.A = &End{p: p, dir: "a2b", in: ba, out: ab, brk: make(chan struct{}), readBrk: make(chan struct{}), ReadFailAfter: -1, WriteFailAt: -1, DropWriteAt: -1, DeliverThenFailAt: -1}
+	p.B = &End{p: p, dir: "b2a", in: ab, out: ba, brk: make(chan struct{}), readBrk: make(chan struct{}), ReadFailAfter: -1, WriteFailAt: -1, DropWriteAt: -1, DeliverThenFailAt: -1}
 	return p
 }
 
@@ -132,6 +134,22 @@ func (e *End) Break() {
 	}
 }
 
+func (e *End) readErr() error {
+	if e.ReadFailErr != nil {
+		return e.ReadFailErr
+	}
+	return ErrReadFault
+}
+
+// FailReads makes the pending Read (if any) and every later Read of this end fail, at the
+// moment the scenario decides; the write direction is unaffected.
+func (e *End) FailReads() {
+	if !e.readDown {
+		e.readDown = true
+		close(e.readBrk)
+	}
+}
+
 func (e *End) Read(ctx context.Context) (*Rpc, error) {
 	if e.ReadFailAfter >= 0 && e.NRead >= e.ReadFailAfter {
 		e.ReadFailed = true
@@ -143,10 +161,17 @@ func (e *End) Read(ctx context.Context) (*Rpc, error) {
 	if e.down {
 		return nil, ErrClosed
 	}
+	if e.readDown {
+		e.ReadFailed = true
+		return nil, e.readErr()
+	}
 	if !e.p.Opts.CtxRace && vctx.IsDone(ctx) {
 		return nil, vctx.RawErr(ctx)
 	}
 	select {
+	case <-e.readBrk:
+		e.ReadFailed = true
+		return nil, e.readErr()
 	case rpc := <-e.in:
 		k := e.NRead
 		e.NRead++
